@@ -590,7 +590,7 @@ def build_archive(rnd, ents, dialect, prefix="", root_entry=False):
                 else:
                     recs.append((b"LIBARCHIVE.xattr." + urllib.parse.quote(k, safe=".").encode(), base64.b64encode(v)))
             if kind == "sparse":
-                ver = rnd.choice(["0.0", "0.1", "1.0"])
+                ver = a.get("sparse_ver") or rnd.choice(["0.0", "0.1", "1.0"])
                 sm = a["smap"]
                 if ver == "0.0":
                     recs += [(b"GNU.sparse.size", b"%d" % a["real"]), (b"GNU.sparse.numblocks", b"%d" % len(sm))]
@@ -703,6 +703,60 @@ def gnu_tar_archive(rnd, ents, workdir, tag, fmt, sparse_ver=None):
     rc, out, err = run(cmd + ["--"] + tops)
     if rc != 0:
         return None
+    return out
+
+
+def sparse_zero_cases(rnd):
+    """[(archive, opts, description)]: sparse members whose maps contain ZERO-LENGTH entries below the real size, in all four
+    sparse dialects (old GNU header + extension blocks, PAX 0.0, 0.1, 1.0).  GNU tar only writes an empty entry at
+    offset == size; libarchive / bsdtar write a leading "0,0" for a file that starts with a hole, and nothing in the
+    formats forbids an empty entry anywhere.  Expected contents: Python tarfile's reading of the archive, cross-checked
+    here against the generator's own expansion of the map (a case on which the two disagree is dropped)."""
+    out = []
+    attrs = lambda: dict(mode=rnd.choice([0o644, 0o600]), uid=rnd.choice([0, 1000]), gid=0, mtime=rnd.choice([5, 1057296600]), xattr=[])   # noqa: E731
+
+    def shapes(real):
+        h = max(1, real // 3)
+        c = max(1, real // 5)
+        o2 = min(real - 1, h + c + max(1, real // 7)) if real > 2 else real
+        c2 = max(0, min(real - o2, c))
+        yield "hole-leading 0,0", [(0, 0), (h, c)]
+        yield "all hole 0,0", [(0, 0)]
+        yield "all hole 0,0 + end marker", [(0, 0), (real, 0)]
+        yield "all hole, empty entry in the middle", [(real // 2, 0)]
+        yield "empty entry at the end of a region", [(0, h), (h, 0), (o2, c2), (real, 0)]
+        yield "empty entry at the start of a region", [(0, 0), (0, h), (o2, 0), (o2, c2)]
+        yield "empty entry inside a hole", [(0, h), (h + max(1, (o2 - h) // 2), 0), (o2, c2)]
+        yield "adjacent duplicates", [(0, 0), (0, 0), (0, h), (h, 0), (h, 0), (o2, 0), (o2, 0), (o2, c2), (real, 0), (real, 0)]
+        yield "empty entries only behind the data", [(0, h), (h, 0), (real - 1, 0), (real, 0)]
+        for _ in range(2):
+            yield "random map with empty entries", T.rand_map(rnd, real, rnd.choice([1, 2, 3, 6, 30]), zero=True)
+
+    for ver in ("old", "0.0", "0.1", "1.0"):
+        for real in (rnd.choice([1, 2, 20]), rnd.choice([4096, 5000, 131072]), rnd.choice([100000, 300000])):
+            ents = []
+            what = []
+            for k, (nm, smap) in enumerate(shapes(real)):
+                smap = [(o, c) for o, c in smap if 0 <= o and o + c <= real]
+                pos, ok = 0, bool(smap)
+                for o, c in smap:
+                    ok = ok and o >= pos
+                    pos = o + c
+                if not ok:
+                    continue
+                data = bytes((rnd.getrandbits(8) | 1) for _ in range(sum(c for _, c in smap)))      # no zero byte: a hole is recognisable
+                ents.append(("s%02d" % k, "sparse", dict(attrs(), smap=smap, real=real, data=data, sparse_ver=None if ver == "old" else ver)))
+                ents.append(("p%02d" % k, "file", dict(attrs(), data=b"plain file behind sparse member %d\n" % k)))
+                what.append(nm)
+            arc = build_archive(rnd, ents, "gnu" if ver == "old" else "pax")
+            try:
+                tf = tarfile.open(fileobj=io.BytesIO(arc), mode="r:")
+                good = all(tf.extractfile(tf.getmember(n)).read() == T.expand(a["smap"], a["data"], a["real"])
+                           for n, kind, a in ents if kind == "sparse")
+            except Exception:
+                good = False
+            if good:
+                out.append((arc, {}, "own writer, sparse %s, maps with zero-length entries (size %d)" % (ver, real)))
     return out
 
 
